@@ -230,7 +230,7 @@ func main() {
 		}
 	}()
 	sum := vh.NewSummary("C11", o, rule)
-	cw := vh.NewCaseWriter(o, "c11", "Base.Tree Model.Nav", "ncase", "check_case")
+	cw := vh.NewCaseWriter(o, "c11", "Base.Tree Model.Nav", "c11case", "check_case")
 	cw.PerFile = 25
 	rn := &runner{o: o, sum: sum, cw: cw}
 	defer func() {
@@ -365,17 +365,18 @@ func main() {
 		}
 		if di%3 != 2 || o.Tier == "thorough" { // quick tier: two documents out of three are replayed through the Coq model
 			var sb strings.Builder
-			sb.WriteString("(mkCase ")
+			sb.WriteString("(NavCase (mkCase ")
 			coqDNode(&sb, d.xdoc)
 			sb.WriteString("\n  " + vh.CoqTree(d.idoc) + "\n  [")
 			sb.WriteString(strings.Join(runs, ";\n  "))
-			sb.WriteString("])")
+			sb.WriteString("]))")
 			cw.Add(sb.String(), map[string]interface{}{"kind": "ops-model", "doc": text, "earlier_document": pre, "runs": len(runs)})
 		}
 
 		// ---- (b) end to end ----
 		// fixed probes: the sibling / preceding / following axes from the document node and from
 		// the root element (a recycled document node must not remember earlier neighbours)
+		wl := &wrapLog{}
 		rootElem := 0
 		for k, n := range d.xnodes {
 			if n.Type == xmlquery.ElementNode {
@@ -392,6 +393,9 @@ func main() {
 				rn.runExprCase(d, c, false)
 				sum.Count("expr|"+text+"|"+ex+"|"+pathLabel(c.Start), hasAttr && exprTouches(ex))
 				sum.Hist("expr:root-probes")
+				if di%3 != 2 && wl.n < 6 {
+					wl.record(d.inodes[k], ex, sum)
+				}
 			}
 		}
 		ps, pn := bareNameProbes(d, r, 12)
@@ -403,6 +407,9 @@ func main() {
 			out := rn.runExprCase(d, c, false)
 			sum.Count("expr|"+text+"|"+pn[i]+"|"+pathLabel(c.Start), hasAttr)
 			sum.Hist("expr:bare-child-name")
+			if di%3 != 2 && wl.n < 12 {
+				wl.record(d.inodes[ps[i]], pn[i], sum)
+			}
 			if out.n == 0 {
 				sum.Hist("expr:bare-child-name-selects-nothing(children-all-prefixed)")
 			}
@@ -454,6 +461,12 @@ func main() {
 				out := rn.runExprCase(d, c, false)
 				sum.Count("expr|"+text+"|"+ex+"|"+pathLabel(c.Start), hasAttr && exprTouches(ex))
 				sum.Hist("expr:evaluations")
+				// node-set expressions only: a boolean-valued expression that is true makes the
+				// engine's iterator yield the context node for ever, and idr.MatchAll with it
+				// (reported separately: C03 class, not a C11 disagreement)
+				if !scalar && (di%3 != 2 || o.Tier == "thorough") && wl.n < 30 {
+					wl.record(d.inodes[k], ex, sum)
+				}
 				if out.Q1 > 0 {
 					sum.Hist("expr:reference-repair-active(Q1 Value of document node)")
 				}
@@ -482,6 +495,10 @@ func main() {
 					sum.Sample(map[string]interface{}{"kind": "expr", "doc": text, "expr": ex, "start": pathLabel(c.Start), "idr": out.IdrHits, "idr_value": out.IdrVal})
 				}
 			}
+		}
+		if wl.n > 0 {
+			wl.record(d.inodes[0], ".", sum)
+			cw.Add(wl.term(), map[string]interface{}{"kind": "string-api-wrappers", "doc": text, "earlier_document": pre, "queries": wl.n})
 		}
 		for f := range g.feat {
 			exprFeat[f] = true
